@@ -375,6 +375,12 @@ def _cross_states(seed):
         # hours around the European and American transitions of 2021 (the UTC shift of an endpoint crosses them)
         for y, m, d, hh in ((2021, 3, 28, 1), (2021, 3, 28, 12), (2021, 10, 31, 0), (2021, 3, 14, 7), (2021, 11, 7, 5)):
             S.append((z, (calref.days_from_civil(y, m, d) * 86400 + hh * 3600 + 1800) * US))
+    # values exactly at LOCAL MIDNIGHT in their own zone (today(tz), start_of('day') ...)
+    for z in ("Asia/Tokyo", "America/New_York", "Europe/Berlin", 19800):
+        for y, m, d in ((2024, 1, 31), (2024, 3, 1)):
+            wall_s = calref.days_from_civil(y, m, d) * 86400
+            off = z if isinstance(z, int) else tzref.zone(z).solve(wall_s)[0]
+            S.append((z, (wall_s - off) * US))
     # UTC offsets that are not whole minutes: local mean time eras of named zones, and fixed offsets with seconds
     for z in ("Europe/Paris", "America/New_York", "Europe/Amsterdam", 20440, -17762):
         for y, m, d, hh, mi, ss in ((1880, 3, 31, 23, 59, 30), (1880, 5, 1, 0, 0, 20), (1881, 1, 1, 12, 30, 45)):
